@@ -48,7 +48,9 @@ def gen_one(rng):
         d = Fraction(int(d * 4096), 4096)
         p = [0, 1] if rng.random() < 0.7 else [rng.randint(1, 5000), rng.choice([1, 16, 1024])]
         ticks.append({"pause": p, "eps": eps, "dur": [d.numerator, d.denominator]})
-    return {"k": k, "interval": interval, "offset": offset, "ticks": ticks}
+    # setting up the components takes real time too (none, short, longer than one interval)
+    setup = rng.choice([[0, 1], [0, 1], [1, 64], [rng.randint(1, 200), 64]])
+    return {"k": k, "interval": interval, "offset": offset, "ticks": ticks, "setup_dur": setup}
 
 
 def gen(rng, tier):
